@@ -172,6 +172,7 @@ func init() {
 		}
 		attempt := func(label string, msg *net.FastForwardResponse) {
 			res.Attempts++
+			fmt.Fprintf(os.Stderr, "ATTEMPT %s\n", label)
 			c := x.C
 			t := c.Nodes[it.Target]
 			before := c.DataDigest()
@@ -333,10 +334,14 @@ func init() {
 			raw[i], _ = json.Marshal(it)
 		}
 		bud := budget(map[bool]time.Duration{false: 170 * time.Second, true: 30 * time.Minute}[th])
-		pool := explore.Pool{Mode: "ff", Deadline: time.Now().Add(bud)}
+		pool := explore.Pool{Mode: "ff", Deadline: time.Now().Add(bud), ItemTimeout: 4 * time.Minute}
 		tot := &FFResult{Classes: map[string]int{}}
 		var crashes []string
 		handed := pool.Run(raw, func(r explore.PoolResult) {
+			if strings.HasPrefix(r.Crashed, "TIMEOUT") {
+				tot.Viol = append(tot.Viol, ev.Violation{Property: prop, Key: "hang", What: "the node did not return from a fast-forward attempt: " + lastAttempt(r.Crashed), Replay: map[string]interface{}{"worker_mode": "ff", "item": json.RawMessage(raw[r.Index])}})
+				return
+			}
 			if r.Crashed != "" || r.Err != "" {
 				crashes = append(crashes, string(raw[r.Index])+": "+r.Crashed+r.Err)
 				return
